@@ -220,6 +220,18 @@ func sxgPol(args []string) error {
 				apply(sc, d)
 				runScenario(ctx, sc, kc)
 			}
+			if strings.HasPrefix(d.name, "cc") {
+				// every directive subset also together with an Expires header, on a default-cacheable and a
+				// not-default-cacheable status (no condition may mask another)
+				for _, st := range []int{200, 302} {
+					sc := newScenario(r, ver)
+					sc.sp.status = st
+					sc.rawResp["Expires"] = []string{"Thu, 01 Jan 2099 00:00:00 GMT"}
+					sc.names = []string{"status=" + itoa(st), "expires header"}
+					apply(sc, d)
+					runScenario(ctx, sc, kc)
+				}
+			}
 		}
 		np := 1500
 		if thorough {
